@@ -221,6 +221,7 @@ func (Engine) RunOne(t *core.Tape, prop, tier string, info *core.RunInfo) *core.
 	const dealerID = 100
 
 	// ---- the dealer's deals ----
+	var altDealer dealerObj
 	mkDeal := func(i int) (*Enc, *Deal, string) {
 		kind := "honest"
 		if malDealer && t.Bool("byz.deal", 550) {
@@ -308,8 +309,15 @@ func (Engine) RunOne(t *core.Tape, prop, tier string, info *core.RunInfo) *core.
 			}
 		case "equivocating-commitments":
 			// a second, self-consistent polynomial for this verifier only; the session-id FIELD is the real one
-			alt, aerr := va.NewDealer(dPriv, kit.ScalarFromTape(g, t, "byz.val"), kit.CopyPoints(g, vPubs), uint32(th))
-			if aerr != nil {
+			// ONE alternative sharing per run: the verifiers that are served from it form a second
+			// session under the same dealer key, whose responses circulate too (seed C10i: a verifier
+			// holding a deal of the first sharing was talked into the second one's session id)
+			var aerr error
+			if altDealer == nil {
+				altDealer, aerr = va.NewDealer(dPriv, kit.ScalarFromTape(g, t, "byz.val"), kit.CopyPoints(g, vPubs), uint32(th))
+			}
+			alt := altDealer
+			if aerr != nil || alt == nil {
 				kind = "honest"
 				e, err = dealer.Enc(i)
 				break
@@ -612,6 +620,10 @@ func (Engine) RunOne(t *core.Tape, prop, tier string, info *core.RunInfo) *core.
 			info.Logf("t=%d resp(%s idx=%d ok=%v) -> v%d: err=%v", net.Now, r.kind, r.Index, r.Approved, i, err != nil)
 			info.SigAdd("R%d:%d:%v:%s:%v", i, r.Index, r.Approved, r.kind, err == nil)
 			if err == nil {
+				if nd.inSession && !bytes.Equal(r.Sid, realSid) {
+					// a verifier that holds a deal of THIS sharing takes part in this session only
+					return viol("C10", "authentic-responses", "response/accepted-for-another-session/"+va.Name(), "verifier %d holds a deal of the dealer's session and accepted a response (%s, verifier %d) that carries another session id", i, r.kind, r.Index)
+				}
 				if v := recordResp(&nd.m, r, fmt.Sprintf("verifier %d", i)); v != nil {
 					return v
 				}
